@@ -1,7 +1,16 @@
 /-
 Source tie for the tokenizer (see Props/SrcTie.lean for what "translated from the live source" means).
+
+Two layers:
+  * `Src_char_classes`: the character classes (`is_alpha`, `is_number`), translated by py2lean.py;
+  * `Src_tokenize` and its corollaries: the WHOLE of `Tokenizer.tokenize` with the methods it calls
+    (`eat_token`, `identify_constants`, `identify_alphas`, `identify_operators`), translated by
+    py2lean_st.py with the mutable `TokenContext` as explicit state.  The corollaries restate the
+    clauses of C10/C11 about the tokenizer directly for the translated Python, with no reference
+    to the hand-written model.
 -/
-import Mathy.Proofs.PySrcAgreeTok
+import Mathy.Proofs.PySrcAgreeTokSt
+import Mathy.Props.C11
 namespace Mathy
 open Mathy.Py Mathy.Gen.Src Mathy.SrcAgree
 
@@ -10,5 +19,80 @@ predicates as translated from the live source, for every character. -/
 theorem Src_char_classes (c : Char) :
     Tokenizer_is_alpha c = isAlpha c ∧ Tokenizer_is_number c = isNumber c :=
   ⟨is_alpha_agree c, is_number_agree c⟩
+
+/-- **Source tie, tokenizer (C03/C10/C11/C12).** `Tokenizer(exclude_padding).tokenize(s)` as translated
+from the live source computes exactly what the model's `tokenize` computes: the same tokens
+(text and `TOKEN_TYPES` bit of each, end marker included) or the same `ValueError` text, for
+every string and both padding modes.  The result is a function of `(exclude_padding, s)` only: the
+tokenizer keeps no state between calls (the translated method has no other input). -/
+theorem Src_tokenize (excl : Bool) (s : List Char) :
+    Tokenizer_tokenize excl s =
+      match tokenize (!excl) s with
+      | .ok ts => .ok (ts.map tokToPy)
+      | .error c => .error (.ValueError (invalidTokenMsg c s)) :=
+  tokenize_agree excl s
+
+/-- **(C10, tokenizer part) the translated tokenizer terminates with a token list or the documented
+ValueError**: its loop never exhausts the fuel `len(s) + 1`, and no IndexError escapes. -/
+theorem Src_tokenize_closed (excl : Bool) (s : List Char) :
+    (∃ ts, Tokenizer_tokenize excl s = .ok ts) ∨
+    (∃ c, Tokenizer_tokenize excl s = .error (.ValueError (invalidTokenMsg c s))) := by
+  rw [Src_tokenize]
+  cases tokenize (!excl) s with
+  | ok ts => exact .inl ⟨_, rfl⟩
+  | error c => exact .inr ⟨c, rfl⟩
+
+/-- **(C11) the translated tokenizer is lossless**: with padding kept, the token texts concatenate
+to the input up to the documented normalisations (en-dash, square brackets). -/
+theorem Src_tokenize_lossless (s : List Char) (ts : List Token) (h : Tokenizer_tokenize false s = .ok ts) :
+    (ts.map (·.value)).flatten = s.map normChar := by
+  rw [Src_tokenize] at h
+  cases ht : tokenize (!false) s with
+  | error c => rw [ht] at h; cases h
+  | ok ms =>
+    rw [ht] at h
+    simp only [Except.ok.injEq] at h
+    subst h
+    have := C11_lossless s ms ht
+    simpa [tokToPy, Function.comp_def] using this
+
+/-- **(C11) it raises exactly on the first unsupported character**, and the message names it. -/
+theorem Src_tokenize_error_iff (excl : Bool) (s : List Char) (c : Char) :
+    Tokenizer_tokenize excl s = .error (.ValueError (invalidTokenMsg c s)) ↔
+      ∃ pre post, s = pre ++ c :: post ∧ (∀ d ∈ pre, supported d = true) ∧ supported c = false := by
+  rw [← C11_error_iff (!excl) s c, Src_tokenize]
+  cases tokenize (!excl) s with
+  | ok ts => simp
+  | error d =>
+    simp only [Except.error.injEq, PyErr.ValueError.injEq]
+    constructor
+    · intro h
+      exact invalidTokenMsg_inj _ _ _ h
+    · rintro rfl; rfl
+
+/-- **(C11) the end marker is the last token and the only one of its type.** -/
+theorem Src_tokenize_eof (excl : Bool) (s : List Char) (ts : List Token) (h : Tokenizer_tokenize excl s = .ok ts) :
+    ∃ body, ts = body ++ [⟨[], TOKEN_TYPES_EOF⟩] ∧ ∀ t ∈ body, t.type ≠ TOKEN_TYPES_EOF := by
+  rw [Src_tokenize] at h
+  cases ht : tokenize (!excl) s with
+  | error c => rw [ht] at h; cases h
+  | ok ms =>
+    rw [ht] at h
+    simp only [Except.ok.injEq] at h
+    subst h
+    obtain ⟨body, rfl, hb⟩ := C11_eof_once (!excl) s ms ht
+    refine ⟨body.map tokToPy, by simp [tokToPy, TT.bit, TOKEN_TYPES_EOF], ?_⟩
+    intro t ht'
+    obtain ⟨m, hm, rfl⟩ := List.mem_map.1 ht'
+    have := hb m hm
+    revert this
+    cases hty : m.type <;> simp [tokToPy, TT.bit, TOKEN_TYPES_EOF, hty]
+
+/-! non-vacuity: the translated Python on a concrete input -/
+example : Tokenizer_tokenize true "4x + sgn(2)".toList = .ok
+    [⟨['4'], 1⟩, ⟨['x'], 2⟩, ⟨['+'], 4⟩, ⟨"sgn".toList, 1024⟩, ⟨['('], 256⟩, ⟨['2'], 1⟩, ⟨[')'], 512⟩, ⟨[], 8192⟩] := by
+  decide +kernel
+example : Tokenizer_tokenize true "2 # 3".toList = .error (.ValueError (invalidTokenMsg '#' "2 # 3".toList)) := by
+  decide +kernel
 
 end Mathy
